@@ -274,7 +274,8 @@ def run(rep, tier, seed, replay):
         tr = judge(rep, behaviours, trace)
     # two servers replicating the cursors partition: leader changes between live servers
     if not os.environ.get('VERIF_C11_NODESIGN'):
-        res = core.tlc_check('MC_Cursors.tla', 'MC_Cursors_two.cfg', timeout=1500, coverage=(tier == 'thorough'))
+        res = core.tlc_check('MC_Cursors.tla', 'MC_Cursors_two.cfg' if tier == 'quick' else 'MC_Cursors_two_thorough.cfg',
+                             timeout=1500, coverage=(tier == 'thorough'))
         rep.add_design('MC_Cursors_two', res)
     num2, budget2 = (500, 90) if tier == 'quick' else (2000, 400)
     free2 = [b for b in core.tlc_simulate('MC_Cursors.tla', 'Sim_Cursors_two.cfg', num2, 16, seed) if len(b) > 1]
